@@ -112,6 +112,8 @@ fn cmd_export(args: &[String]) -> i32 {
     plans.extend(checks::distinct_plans(&planmc::Profile::EB, 2, 1));
     plans.extend(checks::distinct_plans(&planmc::Profile::F, 3, 1));
     plans.extend(checks::distinct_plans(&planmc::Profile::C { times: vec![1, 5] }, if thorough { 7 } else { 6 }, 5));
+    // parametric families: stages of up to 24 groups, chains, groups filled to capacity
+    plans.extend(planmc::families(if thorough { 40 } else { 24 }).into_iter().map(|(_, ops)| ops));
     let mut out = Vec::new();
     for p in &plans {
         let l = match obs::layout_of(p, &hsys::Ctx::identity_map()) {
